@@ -1074,6 +1074,37 @@ class Mailbox:
 
     ##################################################################
     #
+    @staticmethod
+    def _refresh_pending_fetches(
+        client: "Authenticated", fresh: dict[int, str]
+    ) -> None:
+        """
+        Replace the pending `* n FETCH (FLAGS ..)` notifications of `client`
+        for the message sequence numbers in `fresh` with the notifications
+        given there.
+
+        Only notifications queued after the last pending EXPUNGE are
+        considered: the ones before it use the numbering from before that
+        EXPUNGE.
+        """
+        pending = client.pending_notifications
+        start = 0
+        for idx, notification in enumerate(pending):
+            if notification.rstrip().endswith(" EXPUNGE"):
+                start = idx + 1
+        for idx in range(start, len(pending)):
+            parts = pending[idx].split(" ", 3)
+            if (
+                len(parts) == 4
+                and parts[0] == "*"
+                and parts[2] == "FETCH"
+                and parts[1].isdigit()
+                and int(parts[1]) in fresh
+            ):
+                pending[idx] = fresh[int(parts[1])]
+
+    ##################################################################
+    #
     async def check_new_msgs_and_flags(
         self,
         dont_notify: Optional["Authenticated"] = None,
@@ -2690,6 +2721,18 @@ class Mailbox:
         await self._dispatch_or_pend_notifications(
             notifications, dont_notify=dont_notify
         )
+
+        # The client doing the STORE is not sent these notifications, but it
+        # may still have FETCH notifications pending for these messages from
+        # before this STORE (eg: for a message that was found when this
+        # command began). Sent after this STORE they would tell the client
+        # flags that are no longer true, so bring them up to date.
+        #
+        if dont_notify is not None and dont_notify.pending_notifications:
+            self._refresh_pending_fetches(
+                dont_notify, dict(zip(msg_set, notifications))
+            )
+
         duration = time.monotonic() - store_start
         if duration > 0.5:
             self.logger.debug(
